@@ -75,6 +75,10 @@ NAMES = ["attribute", "name1", "n"]
 NAMES_TYPED = [True, 1, 1.0, "1"]
 MDS = [None, None, {}, {"a": "b"}, {"a": "c"}, {"a": "b", "x": "y"}, {"a": 1}, {"a": True}, {"a": 1.0}]
 # registrations only: values that have no JSON form (misuse of add_known_hash; they must simply match nothing)
+# registrations only: fixed metadata that itself carries one of the standard keys (e.g. the dict of an attestation request
+# that names the schema); the code compares the credential's CUSTOM fields with the registered dict as given
+MDS_STANDARD_KEY = [{"schema": "id_metadata", "a": "b"}, {"schema": "other", "a": "b"}, {"date": 1, "a": "b"},
+                    {"name": "attribute"}, {"schema": "id_metadata"}]
 MDS_NONJSON = [{"a": b"b"}, {"a": {1, 2}}, {1: "x", "a": "b"}]
 
 
@@ -468,9 +472,16 @@ class World:
             self.fail("substantiate:chain-not-verified", tag + " but the token it points to has no verified path to the "
                       "subject's genesis among the tokens that subject disclosed")
             return
-        # every (complete) token the subject disclosed in the triggering message must be the subject's.  Deliberately NOT
-        # judged (the code is stricter, but the property does not ask for it): a trailing partial chunk, and third-party
-        # attestations travelling in the same message
+        # every (complete) token the subject disclosed in the triggering message must be the subject's, and every
+        # (authority, attestation) pair the disclosure DECLARES through its authorities list must be present.  Deliberately
+        # NOT judged (the code is stricter, but the property does not ask for it): a trailing partial token chunk, and
+        # whether a complete third-party attestation verifies
+        if trigger.kind == 1:
+            _, declared_incomplete = self.parse_attestations(trigger.body.attestations, trigger.body.authorities)
+            if declared_incomplete:
+                self.fail("substantiate:declared-attestation-missing",
+                          tag + " in reaction to a disclosure that names an authority whose attestation is missing, cut "
+                          "short or unreadable: what the disclosure declares cannot be verified")
         toks, _ = self.parse_tokens(trigger.body.tokens)
         if any(not (t["vk"] >> p) & 1 for t in toks):
             self.fail("_received_disclosure_for_attest:disclosure-not-verified",
@@ -577,6 +588,8 @@ class World:
         self.expect.append("ok")
         self.ctx.count("ev:reg")
         self.ctx.count("reg:name=" + ("str" if isinstance(name, str) else "non-str"))
+        if isinstance(md, dict) and any(k in md for k in ("name", "date", "schema")):
+            self.ctx.count("reg:md-carries-standard-key")
         self.ctx.count("reg:md=" + ("none" if md is None else "fixed-without-json-form" if jd(md).startswith("<no JSON")
                                     else "fixed"))
         self.ctx.count("reg:subject=" + ("node" if subj <= N_NODES else "third-party"))
@@ -1114,7 +1127,8 @@ class Gen:
             real = [t.get_plaintext_signed() for t in w.ov[a].token_chain]
             x = rng.choice([k for k in w.sk if k not in (a, v)])
             taint = self.pick(["garbage-token", "foreign-token", "bad-attestation", "wrong-authority", "orphan-token",
-                               "foreign-metadata"])
+                               "foreign-metadata", "attestation-missing", "attestation-cut-short",
+                               "second-attestation-missing"])
             w.ctx.count("craft:taint:" + taint)
             toks, att, auth = list(real), b"", b""
             mdblob = meta.get_plaintext_signed()
@@ -1132,6 +1146,15 @@ class Gen:
             elif taint == "foreign-metadata":
                 # the same statement about a's token, but signed by somebody else
                 mdblob = mk_metadata(w, x, meta.token_pointer, meta.serialized_json_dict)
+            elif taint == "attestation-missing":
+                # the disclosure names an authority, the attestation it announces is not there
+                att, auth = b"", frame_auth(w, [x])
+            elif taint == "attestation-cut-short":
+                att = mk_attestation(w, x, meta.get_hash())[:rng.choice([1, 31, 32, 60, 95])]
+                auth = frame_auth(w, [x])
+            elif taint == "second-attestation-missing":
+                att = mk_attestation(w, x, meta.get_hash())
+                auth = frame_auth(w, [x, rng.choice([k for k in w.sk if k not in (x, a)])])
             elif taint == "bad-attestation":
                 att = mk_attestation(w, x, meta.get_hash())
                 att = att[:-1] + bytes([att[-1] ^ 1])
@@ -1384,9 +1407,16 @@ class Gen:
             w.ev_advert(a, v, h20 if rng.random() < 0.7 else h1, name, None)
             self.flush()
         elif kind == "fixed-metadata":
-            md = rng.choice(MDS[2:])
-            w.ev_reg(v, h1, name, a, md)
-            w.ev_advert(a, v, h1, name, rng.choice(MDS[2:] + [md, md]))
+            if self.pick([False, True, False]):
+                md = self.pick(MDS_STANDARD_KEY, salt=self.vidx // 3)
+                w.ctx.count("fixed-metadata:registered-with-standard-key")
+                w.ev_reg(v, h1, name, a, md)
+                # the credential agrees in every custom field; it can differ only in the standard key
+                w.ev_advert(a, v, h1, name, {k: x for k, x in md.items() if k not in ("name", "date", "schema")} or None)
+            else:
+                md = rng.choice(MDS[2:])
+                w.ev_reg(v, h1, name, a, md)
+                w.ev_advert(a, v, h1, name, rng.choice(MDS[2:] + [md, md]))
             self.flush()
         elif kind == "wrong-name":
             w.ev_reg(v, h1, name, a, None)
@@ -1409,7 +1439,8 @@ class Gen:
             v = self.node()
             subj = rng.choice([k for k in (w.nodes if rng.random() < 0.9 else w.sk) if k != v])
             w.ev_reg(v, self.rhash(), rng.choice(NAMES_TYPED) if rng.random() < 0.08 else rng.choice(NAMES), subj,
-                     rng.choice(MDS_NONJSON) if rng.random() < 0.06 else rng.choice(MDS))
+                     rng.choice(MDS_NONJSON) if rng.random() < 0.06 else
+                     rng.choice(MDS_STANDARD_KEY) if rng.random() < 0.06 else rng.choice(MDS))
         elif r < 0.27:
             s = self.node()
             v = self.node(s)
@@ -1654,7 +1685,9 @@ REQUIRED_CLASSES = (
     + ["restart:manager=kept", "restart:manager=new", "restart:chain=reversed", "restart:chain=same"]
     + ["restart-opener:" + k for k in ("third-party-first", "own-row-stored", "own-row-plus-row-of-other-subject")]
     + ["craft:taint:" + k for k in ("garbage-token", "foreign-token", "bad-attestation", "wrong-authority", "orphan-token",
-                                    "foreign-metadata")]
+                                    "foreign-metadata", "attestation-missing", "attestation-cut-short",
+                                    "second-attestation-missing")]
+    + ["fixed-metadata:registered-with-standard-key", "reg:md-carries-standard-key"]
     + ["forged-out-of-order:forged", "forged-out-of-order:honest-control", "craft:forged-link:position=last",
        "craft:forged-link:position=inner", "bad-token-then-restart:orphan", "bad-token-then-restart:other-subjects-token",
        "orphan-flood:over-cap", "orphan-flood:within-cap", "advert:raised:RuntimeError", "advert:raised:TypeError",
